@@ -195,6 +195,16 @@ def run(ck: Check):
         got = outcome(lambda: GroupSum(k, device="cpu"))
         record("groupsum-ctor", {"k": k, "bad": "k"}, k > 0, got)
         gs_rows.append((k, got[0] == "returned"))
+    for tau in (0.0, -2.0, float("nan"), float("inf"), 1e-46, 1e39, 0.5):
+        okt = 0 < tau < float("inf")
+        got = outcome(lambda: GroupSum(2, tau, device="cpu")(torch.ones(1, 4)))
+        record("groupsum-tau", {"tau": repr(tau), "bad": "tau", "given": "constructor"}, okt, got)
+        def _late(t=tau):
+            g = GroupSum(2, 1.0, device="cpu")
+            g.tau = t
+            return g(torch.ones(1, 4))
+        got = outcome(_late)
+        record("groupsum-tau", {"tau": repr(tau), "bad": "tau", "given": "attribute"}, okt, got)
     # ---------------- conv forward shapes
     for _ in range(reps):
         for dims in (2, 3):
